@@ -360,6 +360,9 @@ theorem pendDF_runFrame (p : Prog) (hh : Hist) {s : St} {f : Frame} (h : PendDF 
     simp only [runFrame, doExclActs]
     split
     · exact pendD_gen h nopend0 (by trkD) rfl (fs := [.flush]) rfl (noPend_of_empty rfl)
+    · rename_i t _
+      exact pendD_gen h nopend0 (by trkD) rfl (fs := [.runnerStart t .plain, .exclActs sys (i + 1)]) rfl
+        (fun T => by cases T <;> rfl)
     · split
       · exact pendD_gen h nopend0 (by trkD) (by simp [St.push])
           (fs := [.flush, .exclActs sys (i + 1)]) (by simp [St.push]) (noPend_of_empty rfl)
